@@ -239,8 +239,11 @@ func (s *Solver) Check(pc []*Term, extra *Term, want map[string]*Term) (Result, 
 		os.WriteFile(fmt.Sprintf("%s/slow-%d-%s-%.0fs.smt2", d, time.Now().UnixNano(), r, time.Since(t0).Seconds()), []byte(DumpQuery(pc, extra, "", nil)), 0o644)
 	}
 	var m Model
-	if r == Sat && len(want) > 0 {
-		m = s.getValues(want)
+	if r == Sat {
+		m = Model{}
+		if len(want) > 0 {
+			m = s.getValues(want)
+		}
 	}
 	s.send("(pop 1)\n")
 	return r, m
